@@ -308,6 +308,13 @@ def verify_function(contract, tier="quick"):
         out["status"] = "undecided"
         out["reason"] = f"{type(exc).__name__}: {exc}"
         out["obligations"] = ex.obligations
+    except (AssertionError, TypeError, KeyError, AttributeError, IndexError, z3.Z3Exception) as exc:
+        # the symbolic executor met a shape of code it was not built for (typically after an edit of the function): the function is
+        # undecided - never "proved", never a violation by itself; the run-time contract harness decides
+        import traceback
+        out["status"] = "undecided"
+        out["reason"] = f"engine limitation ({type(exc).__name__}: {str(exc)[:200]}) at {traceback.extract_tb(exc.__traceback__)[-1][:3]}"
+        out["obligations"] = ex.obligations
     out["info"] = ex.info
     out["time"] = time.time() - t0
     out["assumed_used"] = ex.used_assumed
